@@ -473,6 +473,31 @@ def register_all(M):
         b = make_box(I, box_ty_of(et), Ptr(Cell(a[0], 'box'), 0))
         return Agg([b])
 
+    @reg('<std::boxed::Box<T, A> as std::ops::Deref>::deref', '<std::boxed::Box<T, A> as std::ops::DerefMut>::deref_mut',
+         '<std::boxed::Box<T, A> as std::convert::AsRef<T>>::as_ref', '<std::boxed::Box<T, A> as std::convert::AsMut<T>>::as_mut',
+         '<std::boxed::Box<T, A> as std::borrow::Borrow<T>>::borrow')
+    def box_deref(I, ext, a):
+        b = deref_to_value(a[0])
+        return I.box_ptr(b)
+
+    @reg('std::boxed::Box::<T, A>::into_pin', '<std::pin::Pin<std::boxed::Box<T, A>> as std::convert::From<std::boxed::Box<T, A>>>::from')
+    def box_into_pin(I, ext, a):
+        return Agg([a[0]])
+
+    @reg_re(r"^std::boxed::convert::<impl std::convert::From<.*> for std::boxed::Box<\(?dyn std::error::Error|^anyhow::error::<impl std::convert::From<anyhow::Error> for std::boxed::Box<\(?dyn std::error::Error")
+    def box_dyn_error_from(I, ext, a):
+        # Box<dyn Error>: an opaque boxed payload (nothing but its destructor is ever used)
+        sty = P.ty_by_str.get('std::string::String')
+        payload = a[0] if type(a[0]) is StringObj else StringObj('<error>')
+        ret = None
+        for k, t in P.tys.items():
+            if t['kind'] == 'adt' and t.get('is_box') and t['str'].startswith('std::boxed::Box<dyn std::error::Error'):
+                ret = k
+                break
+        if ret is None:
+            raise Unsupported('no Box<dyn Error> type in dump')
+        return make_box(I, ret, Ptr(Cell(payload, 'box'), 0, Dyn(sty)))
+
     def drop_box(I, ext, a):
         b = deref_to_value(a[0])
         p = I.box_ptr(b)
